@@ -18,6 +18,8 @@ pub struct Reply {
     pub trigger: usize,
     /// Offset of the header of the record that elicits it.
     pub rec_start: usize,
+    /// Offset just past the record (content and padding).
+    pub rec_end: usize,
     pub bytes: Vec<u8>,
     pub kind: &'static str,
 }
@@ -115,7 +117,7 @@ pub fn preamble(w: &[u8], start: usize, max_conns: usize) -> PreambleModel {
         let body = p + 8;
         let next = body + h.clen + h.pad;
         if !is_known_type(h.t) {
-            m.replies.push(Reply { trigger: body, rec_start: p, bytes: unknown_reply(h.id, h.t).bytes(), kind: "unknown" });
+            m.replies.push(Reply { trigger: body, rec_start: p, rec_end: next, bytes: unknown_reply(h.id, h.t).bytes(), kind: "unknown" });
             if w.len() < next { return m; }
             p = next;
             continue;
@@ -126,7 +128,7 @@ pub fn preamble(w: &[u8], start: usize, max_conns: usize) -> PreambleModel {
                 if w.len() < body + h.clen { return m; }
                 let vars = getvalues_vars(&w[body..body + h.clen]);
                 m.replies.push(Reply {
-                    trigger: body + h.clen, rec_start: p,
+                    trigger: body + h.clen, rec_start: p, rec_end: next,
                     bytes: get_values_result(vars, max_conns).bytes(), kind: "getvalues",
                 });
             }
@@ -146,7 +148,7 @@ pub fn preamble(w: &[u8], start: usize, max_conns: usize) -> PreambleModel {
                     let flags = w[body + 2];
                     if !(1..=3).contains(&role) {
                         m.replies.push(Reply {
-                            trigger: body + 8, rec_start: p,
+                            trigger: body + 8, rec_start: p, rec_end: next,
                             bytes: end_request(h.id, 0, ST_UNKNOWN_ROLE).bytes(), kind: "unknown_role",
                         });
                     } else if h.id == 0 {
@@ -187,7 +189,7 @@ pub fn preamble(w: &[u8], start: usize, max_conns: usize) -> PreambleModel {
                     p = next;
                 } else if h.t == ABORT && h.id == id {
                     m.replies.push(Reply {
-                        trigger: body, rec_start: p,
+                        trigger: body, rec_start: p, rec_end: next,
                         bytes: end_request(id, 0, ST_COMPLETE).bytes(), kind: "abort_params",
                     });
                     m.aborted += 1;
@@ -196,7 +198,7 @@ pub fn preamble(w: &[u8], start: usize, max_conns: usize) -> PreambleModel {
                     p = next;
                 } else if h.t == BEGIN && h.id != id {
                     m.replies.push(Reply {
-                        trigger: body, rec_start: p,
+                        trigger: body, rec_start: p, rec_end: next,
                         bytes: end_request(h.id, 0, ST_CANT_MPX).bytes(), kind: "cant_mpx",
                     });
                     if w.len() < next { return m; }
@@ -251,7 +253,7 @@ pub fn stream(w: &[u8], start: usize, id: u16, role: u16, max_conns: usize) -> S
         let body = p + 8;
         let next = body + h.clen + h.pad;
         if !is_known_type(h.t) {
-            m.replies.push(Reply { trigger: body, rec_start: p, bytes: unknown_reply(h.id, h.t).bytes(), kind: "unknown" });
+            m.replies.push(Reply { trigger: body, rec_start: p, rec_end: next, bytes: unknown_reply(h.id, h.t).bytes(), kind: "unknown" });
         } else if (h.t == STDIN || h.t == DATA) && h.id == id {
             if let Some(idx) = streams.iter().position(|&s| s == h.t) {
                 // a record of stream idx stops every earlier stream that has not stopped yet
@@ -274,14 +276,14 @@ pub fn stream(w: &[u8], start: usize, id: u16, role: u16, max_conns: usize) -> S
             return m;
         } else if h.t == BEGIN && h.id != id {
             m.replies.push(Reply {
-                trigger: body, rec_start: p,
+                trigger: body, rec_start: p, rec_end: next,
                 bytes: end_request(h.id, 0, ST_CANT_MPX).bytes(), kind: "cant_mpx",
             });
         } else if h.t == GETVALUES && h.id == 0 && h.clen > 0 {
             if w.len() < body + h.clen { return m; }
             let vars = getvalues_vars(&w[body..body + h.clen]);
             m.replies.push(Reply {
-                trigger: body + h.clen, rec_start: p,
+                trigger: body + h.clen, rec_start: p, rec_end: next,
                 bytes: get_values_result(vars, max_conns).bytes(), kind: "getvalues",
             });
         }
